@@ -33,9 +33,9 @@ import OccaProofs.Lemmas.GcRing
 namespace Occa.Gc.C01
 open Occa.Gc
 
-theorem run_eq (ops : List Op) : run ops = runFrom St.init ops := rfl
+private theorem run_eq (ops : List Op) : run ops = runFrom St.init ops := rfl
 
-theorem run_snoc (ops : List Op) (op : Op) : run (ops ++ [op]) = (step (run ops) op).1 := by
+private theorem run_snoc (ops : List Op) (op : Op) : run (ops ++ [op]) = (step (run ops) op).1 := by
   simp [run, List.foldl_append]
 
 /-- the full invariant, for every history -/
